@@ -77,6 +77,17 @@ class World:
                 m = re.search(r"\bself\.(\w+)", g.origin_text)
                 if g.target[2] >= 1 and self.eff.is_instance_object(root):
                     fld = m.group(1) if m else infer_field(self.model, g.origin_func, g.origin_text)
+                    if fld is None:
+                        # written through a helper: the call site inside a method of the object names the field
+                        for cf, cl in reversed(g.chain):
+                            cfi = self.model.funcs.get(cf)
+                            if cfi is not None and cfi.cls:
+                                lines = self.model.sources.files[cfi.rel].splitlines()
+                                if 0 < cl <= len(lines):
+                                    mm = re.search(r"\bself\.(\w+)", lines[cl - 1])
+                                    if mm:
+                                        fld = mm.group(1)
+                                        break
                 key = (root, fld, f, g.origin_func)
                 sw = groups.get(key)
                 if sw is None:
@@ -264,6 +275,139 @@ def recognise_slot_memo(model: Model, func: str, attr: str) -> Optional[List[str
         if missing and not problems:
             problems.append(f"the remembered value depends on {sorted(missing)}, which the hit test does not compare")
     return problems
+
+
+WHOLE = "<whole object>"
+
+
+def fields_read(model: Model, func: str, param: str, depth: int = 0, skip: Optional[Set[int]] = None) -> Set[object]:
+    """first-level components of parameter `param` that `func` (and the repository functions it hands the parameter to) read:
+    constant subscripts p["x"] / p[0]; WHOLE when the object is used in a way that is not resolved to components"""
+    fi = model.funcs.get(func)
+    if fi is None or fi.is_module_body or depth > 3:
+        return {WHOLE}
+    out: Set[object] = set()
+    parents: Dict[int, ast.AST] = {}
+    for pnode in ast.walk(fi.node):
+        for c in ast.iter_child_nodes(pnode):
+            parents[id(c)] = pnode
+    sites = {id(cs.node): cs for cs in model.calls.get(func, [])}
+    for n in ast.walk(fi.node):
+        if skip and id(n) in skip:
+            continue
+        if isinstance(n, ast.Name) and n.id == param and isinstance(n.ctx, ast.Load):
+            par = parents.get(id(n))
+            if skip and any(id(a) in skip for a in _ancestors(n, parents)):
+                continue
+            if isinstance(par, ast.Subscript) and par.value is n and isinstance(par.slice, ast.Constant):
+                out.add(par.slice.value)
+            elif isinstance(par, ast.Call) and n in par.args and id(par) in sites and sites[id(par)].callees and len(sites[id(par)].callees) == 1:
+                cs = sites[id(par)]
+                callee = model.funcs[cs.callees[0]]
+                idx = par.args.index(n) + (1 if cs.kind in ("method", "ctor") else 0)
+                if idx < len(callee.params):
+                    out |= fields_read(model, callee.qual, callee.params[idx], depth + 1)
+                else:
+                    out.add(WHOLE)
+            elif isinstance(par, ast.Assign) and isinstance(par.targets[0], ast.Tuple) and par.value is n:
+                out |= set(range(len(par.targets[0].elts)))
+            else:
+                out.add(WHOLE)
+    return out
+
+
+def _ancestors(n: ast.AST, parents: Dict[int, ast.AST]):
+    cur = parents.get(id(n))
+    while cur is not None:
+        yield cur
+        cur = parents.get(id(cur))
+
+
+def recognise_global_memo(model: Model, func: str) -> Optional[List[str]]:
+    """One-slot memo kept in module-level variables:  key = (..args..); if key == STORED_KEY: return STORED_VALUE; ...
+    None if the function does not have that shape; else the list of problems (empty: exact-key memo whose key covers
+    everything the remembered value is computed from)."""
+    fi = model.funcs.get(func)
+    if fi is None or fi.is_module_body:
+        return None
+    fn = fi.node
+    globs: Set[str] = set()
+    for n in ast.walk(fn):
+        if isinstance(n, ast.Global):
+            globs |= set(n.names)
+    if not globs:
+        return None
+    # locals that alias a global:  last = _last_pentagon
+    alias = {t.id: n.value.id for n in ast.walk(fn) if isinstance(n, ast.Assign) and isinstance(n.value, ast.Name) and n.value.id in globs
+             for t in n.targets if isinstance(t, ast.Name)}
+
+    def from_global(e: ast.AST) -> bool:
+        return any(isinstance(x, ast.Name) and (x.id in globs or x.id in alias) for x in ast.walk(e))
+    key_assign = None
+    for n in ast.walk(fn):
+        if isinstance(n, ast.Assign) and len(n.targets) == 1 and isinstance(n.targets[0], ast.Name) and isinstance(n.value, ast.Tuple) \
+                and not from_global(n.value):
+            key_assign = n
+            break
+    if key_assign is None:
+        return None
+    key_name = key_assign.targets[0].id
+    tests = []
+    for n in ast.walk(fn):
+        if isinstance(n, ast.Compare) and len(n.ops) == 1 and any(isinstance(x, ast.Name) and x.id == key_name for x in ast.walk(n)) and from_global(n):
+            tests.append(n)
+    if not tests:
+        return None
+    problems: List[str] = []
+    for t in tests:
+        if not isinstance(t.ops[0], (ast.Eq, ast.NotEq)):
+            problems.append(f"hit test `{core.src(t)}` is not an exact comparison of the key")
+    params = [p for p in fi.params if p != "self"]
+    skip = {id(x) for x in ast.walk(key_assign)}
+    for prm in params:
+        key_fields: Set[object] = set()
+        parents: Dict[int, ast.AST] = {}
+        for pnode in ast.walk(key_assign.value):
+            for c in ast.iter_child_nodes(pnode):
+                parents[id(c)] = pnode
+        for x in ast.walk(key_assign.value):
+            if isinstance(x, ast.Name) and x.id == prm:
+                par = parents.get(id(x))
+                if isinstance(par, ast.Subscript) and par.value is x and isinstance(par.slice, ast.Constant):
+                    key_fields.add(par.slice.value)
+                else:
+                    key_fields.add(WHOLE)
+        used = fields_read(model, func, prm, 0, skip)
+        if WHOLE in key_fields or not used:
+            continue
+        if WHOLE in used:
+            problems.append(f"UNDECIDED: how the remembered value depends on `{prm}` is not resolved to components")
+            continue
+        missing = {u for u in used if u not in key_fields}
+        if missing:
+            problems.append(f"the remembered value is computed from {prm}[{', '.join(repr(m) for m in sorted(missing, key=repr))}], which the key "
+                            f"`{core.src(key_assign.value)}` does not contain")
+    return problems
+
+
+def history_definite(model: Model, sw: "SharedWrite") -> bool:
+    """Is this write certain to make persistent data depend on the calls made so far?  Read-modify-write of the shared
+    object (augmented stores, in-place transformations, reordering) or overwriting components of a persistent object."""
+    for k in sw.kinds:
+        base = k.split(" (")[0]
+        if "(object stored in shared state)" in k:
+            continue
+        if base in ("subscript-aug", "aug-assign") or base.startswith("attr-aug:"):
+            return True
+        if base in ("method:sort", "method:reverse", "method:insert", "method:extend"):
+            return True
+        if base == "subscript-store:const":
+            return True
+        if base == "subscript-store:key" and store_is_rmw(model, sw.origin_func, sw.origin_line):
+            return True
+        if base in ("method:append", "method:add", "method:setdefault", "method:update") and call_is_rmw(model, sw.origin_func, sw.origin_line):
+            return True
+    return False
 
 
 def write_is_definite(model: Model, sw: "SharedWrite", threads: bool = True) -> bool:
